@@ -183,3 +183,14 @@ pub fn uses_named_consts() -> usize {
     push(MODULE_SQL.len() as u32);
     LOCAL_SQL.len() + MODULE_SQL.len()
 }
+
+// ---- named integer-array constants (a table of lock bytes moved into a const array must stay readable)
+pub const LOCK_BYTES: [i64; 3] = [120, 121, -2];
+
+pub fn uses_array_const() -> i64 {
+    let mut s = 0;
+    for b in LOCK_BYTES {
+        s += b;
+    }
+    s
+}
